@@ -21,9 +21,18 @@ package obykeyset
 // Queue directories found at startup are named by pipeline ids: the tuple a pipeline is re-created for must be the tuple
 // that produced the id - the id is exactly that tuple joined with "," and no recovered value contains the separator (so,
 // with util.lemmaJoinedInjective, it is the only separator-free tuple with that id).
+// ---- verify => construct (C16): what VerifyConfig accepts - the keys are schema fields and the tag template builds over
+// exactly THESE keys - is what NewOrchestrator needs in order not to panic.
+//@ pure func ocfgok(s base.LogSchema, keys []string, tag string) bool := (forall i int :: 0 <= i && i < len(keys) ==> base.hasf(s, key(keys[i]))) && obase.tagbuilds(key(tag), keys)
+//@ func (cfg *Config) VerifyConfig(schema base.LogSchema) ([]string, error)
+//@   property C16
+//@   requires cfg != nil
+//@   modifies nothing
+//@   ensures[accepted-config-is-constructible] result.1 == nil ==> ocfgok(schema, cfg.Keys, cfg.TagTemplate) && result.0 === cfg.Keys
 //@ func NewOrchestrator(parentLogger logger.Logger, schema base.LogSchema, keyFields []string, tagTemplate string, metricCreator promreg.MetricCreator, startPipeline obase.PipelineStarter, initialPipelineIDs []string) base.Orchestrator
-//@   property C06
-//@   flag nosafety noinfer
+//@   property C06 C16
+//@   flag nosafety noinfer checkpanics
+//@   requires[verified-before-constructed] ocfgok(schema, keyFields, tagTemplate)
 //@   modifies everything
 //@   before localcachedmap.LocalCachedMap.GetOrCreate: assert[recovered-queue-id-is-the-joined-tuple] len(keys) == len(keyFields) && joinedof(pipelineID, joinpos, keys, 44, len(keys))
 //@   before localcachedmap.LocalCachedMap.GetOrCreate: assert[recovered-keys-are-separator-free] forall k int :: 0 <= k && k < len(keys) ==> nosep(keys[k], 44)
@@ -34,14 +43,25 @@ package obykeyset
 //@ extern func (c bconfig.ChunkBufferConfig) ListBufferIDs(parentLogger logger.Logger, matchChunkID func(string) bool, metricCreator promreg.MetricCreator) []string
 //@   modifies nothing
 //@ func (cfg *Config) StartOrchestrator(parentLogger logger.Logger, args bconfig.PipelineArgs, metricCreator promreg.MetricCreator) base.Orchestrator
-//@   property C17 C06
+//@   property C17 C06 C16
 //@   flag nosafety noinfer
+//@   requires[verified-before-constructed] cfg != nil && ocfgok(args.Schema, cfg.Keys, cfg.TagTemplate)
 //@   modifies everything
+//@   before obykeyset.NewOrchestrator: assert[orchestrator-built-from-the-verified-keys-and-tag] ocfgok(arg1, arg2, arg3)
 //@   loop 1: step[queue-ids-of-this-pair-are-all-recorded] forall j int :: 0 <= j && j < len(ids) ==> rawhas(initialPipelineIDs, key(ids[j]))
 //@   loop 1: step[recorded-queue-ids-are-kept] forall k int :: prev(rawhas(initialPipelineIDs, k)) ==> rawhas(initialPipelineIDs, k)
 //@   loop 2: invariant -1 <= rangeindex#2 && forall j int :: 0 <= j && j <= rangeindex#2 && j < len(ids) ==> rawhas(initialPipelineIDs, key(ids[j]))
 //@   loop 2: invariant forall k int :: atentry(rawhas(initialPipelineIDs, k)) ==> rawhas(initialPipelineIDs, k)
 //@   before obykeyset.NewOrchestrator: assert[every-recorded-queue-id-is-handed-to-the-orchestrator] forall k int :: rawhas(initialPipelineIDs, k) ==> exists j int :: 0 <= j && j < len(arg6) && key(arg6[j]) == k
+
+// ---- every connection extracts its key values into a scratch slice of its own (C12: connections run concurrently; a shared
+// scratch slice would hand one connection's key values to another)
+//@ func (o *byKeySetOrchestrator) NewSink(clientAddress string, clientNumber base.ClientNumber) base.BufferReceiverSink
+//@   property C12 C06
+//@   flag nosafety
+//@   requires o != nil
+//@   modifies nothing
+//@   ensures[own-extraction-scratch-per-connection] typeis(result, *byKeySetOrchestratorSink) && isfresh(as(result, *byKeySetOrchestratorSink).keySetExtractor.fieldSetBuffer)
 
 // ==== per-connection buffers towards the pipelines (C05: arrival order; C01: nothing is left behind by a flush) ===================
 // Append keeps arrival order (the record becomes the last pending one, everything before it stays); Flush hands over a
